@@ -201,10 +201,73 @@ def changing_key_cases(ctx):
             ctx.violation("C13:changing-key:" + kind, bad, {"suite": "changing-key", "kind": kind, "keys": [(k.tonic, k.scale.name) for k in keys], "melody": melody})
 
 
+def derived_and_mutated_key_cases(ctx):
+    """Implementation-only oracles for keys that are not built in the ordinary way:
+    (1) scales derived from a melody (Scale.fromnotes): the notes folded into one octave, each pitch class once — so the
+        degree mapping is strictly increasing and every degree is a member;
+    (2) a Key object whose tonic / scale is re-assigned after it has been used answers like a newly built Key."""
+    common.ensure_repo_on_path()
+    import isobar as iso
+    r = ctx.rng
+    for i in range(ctx.scale(200, 8000)):
+        octave_size = r.choice([12, 12, 12, 7, 19])
+        melody = [r.randint(24, 96) for _ in range(r.randint(1, 14))]
+        if r.random() < 0.5:
+            melody += [n + octave_size for n in melody[:r.randint(1, len(melody))]]      # the same pitch class in two octaves
+        try:
+            sc = iso.Scale.fromnotes(list(melody), name="verif-%d-%d" % (ctx.seed if hasattr(ctx, "seed") else 0, i), octave_size=octave_size)
+        except Exception as ex:
+            ctx.violation("C13:fromnotes", "Scale.fromnotes(%s, octave_size=%d) raised %s" % (melody, octave_size, type(ex).__name__),
+                          {"suite": "c13-derived", "melody": melody, "octave_size": octave_size})
+            continue
+        iso.Scale.dict.pop(sc.name, None)            # Scale() registers every new name: keep the library's table as it was
+        exp = sorted(set(n % octave_size for n in melody))
+        tonic = r.randint(0, octave_size - 1)
+        key = iso.Key(tonic, sc)
+        degs = list(range(-2 * len(exp), 2 * len(exp) + 1))
+        notes = [key.get(d) for d in degs]
+        problem = None
+        if list(sc.semitones) != exp:
+            problem = "semitones %s, the melody's pitch classes are %s" % (list(sc.semitones), exp)
+        elif any(b <= a for a, b in zip(notes, notes[1:])):
+            problem = "the degree mapping is not strictly increasing: degrees %s -> %s" % (degs[:8], notes[:8])
+        elif octave_size == 12 and any(n not in key for n in notes if n is not None):
+            problem = "a degree's note is not a member of the key"
+        ctx.case(("fromnotes", tuple(melody), octave_size, tonic), nontrivial=len(exp) < len(melody), validated=False)
+        ctx.count("derived:fromnotes")
+        if problem:
+            ctx.violation("C13:fromnotes", "Scale.fromnotes(%s, octave_size=%d), tonic %d: %s" % (melody, octave_size, tonic, problem),
+                          {"suite": "c13-derived", "melody": melody, "octave_size": octave_size, "tonic": tonic})
+    names = [n for n in ("major", "minor", "minorPenta", "majorPenta", "wholetone", "chromatic", "dorian", "locrian") if hasattr(iso.Scale, n)]
+    for i in range(ctx.scale(200, 8000)):
+        s1, s2 = getattr(iso.Scale, r.choice(names)), getattr(iso.Scale, r.choice(names))
+        t1, t2 = r.randint(0, 11), r.randint(0, 11)
+        key = iso.Key(t1, s1)
+        probe = [r.randint(0, 127) for _ in range(6)]
+        # use it first (anything the object may remember)
+        [n in key for n in probe], [key.nearest_note(n) for n in probe], key.get(r.randint(-9, 9)), list(key.semitones)
+        what = r.choice(["tonic", "scale", "both"])
+        if what in ("tonic", "both"):
+            key.tonic = t2
+        if what in ("scale", "both"):
+            key.scale = s2
+        ref = iso.Key(key.tonic, key.scale)
+        got = ([n in key for n in probe], [key.nearest_note(n) for n in probe], [key.get(d) for d in range(-8, 9)], list(key.semitones))
+        exp = ([n in ref for n in probe], [ref.nearest_note(n) for n in probe], [ref.get(d) for d in range(-8, 9)], list(ref.semitones))
+        ctx.case(("mutated-key", t1, s1.name, t2, s2.name, what, tuple(probe)), nontrivial=True, validated=False)
+        ctx.count("derived:mutated-key:" + what)
+        if got != exp:
+            ctx.violation("C13:key-reassigned",
+                          "Key(%d, %s) used, then its %s re-assigned to (%d, %s): it answers %s, a new Key(%d, %s) answers %s"
+                          % (t1, s1.name, what, key.tonic, key.scale.name, str(got)[:160], key.tonic, key.scale.name, str(exp)[:160]),
+                          {"suite": "c13-derived", "before": [t1, s1.name], "after": [key.tonic, key.scale.name], "probe": probe})
+
+
 def run(ctx):
     common.ensure_repo_on_path()
     import isobar as iso
     changing_key_cases(ctx)
+    derived_and_mutated_key_cases(ctx)
     check_table(ctx, iso)
     cases = names_cases(ctx.rng, iso)
     cases += builtin_cases(ctx.rng, iso)
